@@ -1,17 +1,27 @@
 (* C07 -- reproducible output: with auditing off the generated files are a function of inputs, options and tool
-   version; clock, hash seed, cwd and absolute location of the inputs do not matter.
-   Statements only; every proof is `exact <lemma>` or a 2-3 line composition.
-   Model: Gen/Repro.v (environment record, permutation oracle at every hash-ordered iteration, concrete include
-   list / header fields / generation order; the template body is an arbitrary function `render` whose signature
-   is the assumption).  Source facts: Generated/Gen_Repro.v, regenerated from /repo's templates and Python sources
-   on every run by tools/translators/gen_c07.py, so un-gating a timestamp, dropping a sorted() or adding an
-   unsorted set iteration breaks a proof below. *)
+   version; clock, hash seed, cwd, absolute location of the inputs and the previous state of the output directory do not
+   matter.   Statements only; every proof is `exact <lemma>` or a 2-3 line composition.
+
+   Model: Gen/Repro.v.  One run = collect types -> namespace tree -> generation order -> per file: dependency set ->
+   include list -> header values -> template body.  `env` = clock, cwd, absolute location, and a permutation oracle applied
+   at every iteration of a hash-ordered collection.  The template body `render` is handed the WHOLE environment; that it
+   looks only at `body_view` is the named premise `render_sees_only_body_view`.
+
+   Everything the theorems say about /repo enters through Generated/Gen_Repro.v, rewritten from /repo on every run by
+   tools/translators/gen_c07.py: `gen_sites` (uses of ambient template globals with their gating, over every template AND
+   every file reachable through include/import/from/extends, whatever its suffix) and `gen_src_facts`, which carries the
+   boolean source facts and the inventories `gen_tables` (set iterations, ambient reads, orderings of user-supplied paths,
+   keyed sorts, functions that reach templates, included files).  The model's run CONSULTS the inventories: a row that is not
+   accounted for shows the environment in every generated file (`unknown_leak`), so the main theorems need
+   `src_facts_ok gen_src_facts` (which contains `tables_ok gen_tables`) and a wrong row changes what they say.
+
+   Statements about code that is no longer in /repo and model-sensitivity refutations: coq/theories/History/C07_history.v. *)
 From Coq Require Import List NArith Bool Permutation Sorted.
 From Verif Require Import Str Repro ReproThm Gen_Repro.
 Import ListNotations.
 Open Scope N_scope.
 
-(* (a) sorted() is canonical: used at exactly the places the code sorts *)
+(* ---- (a) sorting -------------------------------------------------------------------------------------------------- *)
 Theorem C07_sorted_canonical : forall l1 l2 : list str, Permutation l1 l2 -> sort l1 = sort l2.
 Proof. exact sorted_canonical. Qed.
 Print Assumptions C07_sorted_canonical.
@@ -20,20 +30,13 @@ Theorem C07_sort_is_a_sort : forall l : list str, Permutation l (sort l) /\ Stro
 Proof. exact sort_spec. Qed.
 Print Assumptions C07_sort_is_a_sort.
 
-(* sorted(..., key=k): canonical for EVERY key function when the key carries the exact name as tie-breaker, and not
-   canonical without it as soon as two names tie (natural sort: u7/u07, Abc/abc) *)
+(* sorted(..., key=k) is canonical for EVERY key function k when the key carries the exact name as tie-breaker *)
 Theorem C07_keyed_sort_with_tiebreak_canonical :
   forall (k : str -> str) l1 l2, Permutation l1 l2 -> gsort (pair_leb k) l1 = gsort (pair_leb k) l2.
 Proof. exact keyed_sort_with_tiebreak_canonical. Qed.
 Print Assumptions C07_keyed_sort_with_tiebreak_canonical.
 
-Theorem C07_keyed_sort_without_tiebreak_refuted :
-  exists l1 l2, Permutation l1 l2 /\ gsort (key_leb natkey) l1 <> gsort (key_leb natkey) l2.
-Proof. exact keyed_sort_without_tiebreak_refuted. Qed.
-Print Assumptions C07_keyed_sort_without_tiebreak_refuted.
-
-(* (b) order-irrelevance where the code does not sort: same children per namespace, same multiset of generated
-   items, whatever the iteration order of namespace_index / _nested_namespaces *)
+(* ---- (b) order-irrelevance where the code does not sort, order-independence where it does ---------------------------- *)
 Theorem C07_tree_children_order_irrelevant :
   forall sf e I p c, In c (nested sf e I p) <-> In c (ns_index I) /\ is_child p c = true.
 Proof. exact nested_children. Qed.
@@ -44,8 +47,8 @@ Theorem C07_generation_order_irrelevant :
 Proof. exact gen_order_perm. Qed.
 Print Assumptions C07_generation_order_irrelevant.
 
-(* since 9b93945 get_nested_namespaces() is sorted by the attribute Namespace.__eq__ compares: the generation ORDER itself
-   (not only the multiset) is the same in every environment -- stated for the regenerated facts *)
+(* get_nested_namespaces() is sorted by the attribute Namespace.__eq__ compares (9b93945): the generation ORDER itself is the
+   same in every environment *)
 Theorem C07_generation_order_env_indep :
   forall e1 e2 c I, gen_order gen_src_facts e1 c I = gen_order gen_src_facts e2 c I.
 Proof. intros. apply gen_order_env_indep. vm_compute. reflexivity. Qed.
@@ -57,13 +60,46 @@ Theorem C07_unique_hit_search_order_irrelevant :
 Proof. intros A; exact (@find_unique_perm A). Qed.
 Print Assumptions C07_unique_hit_search_order_irrelevant.
 
-(* (c) the facts about /repo: regenerated tables, checked by computation *)
+(* ---- (c) the facts about /repo (regenerated, checked by computation) ------------------------------------------------- *)
+(* all of them at once: this is the hypothesis the main theorems use *)
 Theorem C07_src_facts_ok : src_facts_ok gen_src_facts = true.
 Proof. vm_compute. reflexivity. Qed.
 Print Assumptions C07_src_facts_ok.
 
-(* every use of an ambient template global is gated by nunavut.embed_auditing_info (or shows nothing ambient),
-   except `T | pickle` in the Python type templates (known finding F-PY-PICKLEPATH) *)
+(* ... and its parts, stated separately so that a failure names what broke *)
+Theorem C07_all_set_iterations_modelled : forallb set_iter_ok (t_set_iters gen_tables) = true.
+Proof. vm_compute. reflexivity. Qed.
+Print Assumptions C07_all_set_iterations_modelled.
+
+Theorem C07_all_keyed_sorts_total : forallb (fun x : sort_site * bool => snd x) (t_sorts gen_tables) = true.
+Proof. vm_compute. reflexivity. Qed.
+Print Assumptions C07_all_keyed_sorts_total.
+
+Theorem C07_all_path_sorts_modelled : forallb path_sort_modelled (t_path_sorts gen_tables) = true.
+Proof. vm_compute. reflexivity. Qed.
+Print Assumptions C07_all_path_sorts_modelled.
+
+Theorem C07_all_ambient_reads_modelled : forallb (fun x => read_site_modelled (snd x)) (t_reads gen_tables) = true.
+Proof. vm_compute. reflexivity. Qed.
+Print Assumptions C07_all_ambient_reads_modelled.
+
+(* every function nunavut registers as a filter / test / uses-query (same naming-convention discovery) is free of unaccounted
+   ambient reads, and every file named by include/import/from/extends was found and scanned *)
+Theorem C07_all_template_functions_scanned_pure : forallb (fun x : N * bool => snd x) (t_filters gen_tables) = true.
+Proof. vm_compute. reflexivity. Qed.
+Print Assumptions C07_all_template_functions_scanned_pure.
+
+Theorem C07_all_included_files_scanned : forallb (fun x : lang * bool => snd x) (t_includes gen_tables) = true.
+Proof. vm_compute. reflexivity. Qed.
+Print Assumptions C07_all_included_files_scanned.
+
+(* the scan saw template files for each of the four languages and found template functions: the facts are not vacuous *)
+Theorem C07_scan_nonvacuous : scan_nonvacuous gen_tables = true.
+Proof. vm_compute. reflexivity. Qed.
+Print Assumptions C07_scan_nonvacuous.
+
+(* every use of an ambient template global is gated by nunavut.embed_auditing_info (or shows nothing ambient), except
+   `T | pickle` in the Python type templates (known finding F-PY-PICKLEPATH) *)
 Theorem C07_all_ambient_uses_gated :
   forallb (fun s => site_ok gen_src_facts s || is_py_pickle s) gen_sites = true.
 Proof. vm_compute. reflexivity. Qed.
@@ -79,59 +115,61 @@ Theorem C07_py_clean_but_pickle : lang_clean_but_pickle gen_src_facts gen_sites 
 Proof. vm_compute. reflexivity. Qed.
 Print Assumptions C07_py_clean_but_pickle.
 
-(* every iteration over a set in the Python sources goes through sorted() or is one of the sites the model
-   permutes; every ambient read is one of the reads the model accounts for *)
-Theorem C07_all_set_iterations_modelled :
-  forallb (fun x => snd x || set_site_modelled (fst x)) gen_set_iters = true.
-Proof. vm_compute. reflexivity. Qed.
-Print Assumptions C07_all_set_iterations_modelled.
-
-(* every sorted()/sort() call with a key= in the Python sources has a tie-breaking key *)
-Theorem C07_all_keyed_sorts_total : forallb (fun x => snd x) gen_sorts = true.
-Proof. vm_compute. reflexivity. Qed.
-Print Assumptions C07_all_keyed_sorts_total.
-
-(* no order is derived from the spelling of user-supplied paths (which depends on the working directory), except where the
-   consumer ignores the order *)
-Theorem C07_all_path_sorts_modelled : forallb (fun x => path_sort_modelled x) gen_path_sorts = true.
-Proof. vm_compute. reflexivity. Qed.
-Print Assumptions C07_all_path_sorts_modelled.
-
-Theorem C07_all_ambient_reads_modelled :
-  forallb (fun x => read_site_modelled (snd x)) gen_ambient_reads = true.
-Proof. vm_compute. reflexivity. Qed.
-Print Assumptions C07_all_ambient_reads_modelled.
-
-(* THE PROPERTY, for the tree as it is now: C, C++ and HTML targets, every template body, every option set with
-   auditing off, every input, any two environments: the same files with the same contents *)
+(* ---- the property ------------------------------------------------------------------------------------------------------ *)
+(* C, C++ and HTML targets, for the tree as it is now: for every template body that satisfies the named premise, every option
+   set with auditing off, every input (also inputs whose items fold onto one path) and any two environments, the output
+   directory holds the same files with the same contents. *)
 Theorem C07_run_env_indep :
-  forall (B : Type) (render : option audit -> cfg -> item -> list (list str) -> B) (c : cfg) (I : list tydecl) (e1 e2 : env),
-    c_embed_audit c = false -> c_lang c <> LPy ->
-    NoDup (out_paths B gen_src_facts gen_sites render e1 c I) ->
-    forall p, files B gen_src_facts gen_sites render e1 c I p = files B gen_src_facts gen_sites render e2 c I p.
+  forall (B : Type) (render : env -> cfg -> item -> list (list str) -> B),
+    render_sees_only_body_view B gen_src_facts render ->
+    forall (c : cfg) (I : list tydecl) (e1 e2 : env),
+      c_embed_audit c = false -> c_lang c <> LPy ->
+      forall p, files B gen_src_facts gen_sites render e1 c I p = files B gen_src_facts gen_sites render e2 c I p.
 Proof.
-  intros B render c I e1 e2 Ha Hl. apply run_env_indep_clean; [exact Ha | exact C07_src_facts_ok |].
+  intros B render Hr c I e1 e2 Ha Hl. apply run_env_indep_clean; [exact Hr | exact Ha | exact C07_src_facts_ok |].
   destruct C07_c_cpp_html_clean as (Hc & Hcpp & Hh). destruct (c_lang c); [exact Hc | exact Hcpp | congruence | exact Hh].
 Qed.
 Print Assumptions C07_run_env_indep.
 
-(* Python target: clock, hash order and cwd are irrelevant; the absolute location is not (F-PY-PICKLEPATH, see the
-   refutation).  The pickle also snapshots process state left by the files generated before it (C10: F-PY-PICKLE-MEMO);
-   for C07 that only mattered while the generation order followed the hash seed (F-PY-PICKLESTATE, fixed by 9b93945):
-   C07_generation_order_env_indep now gives the same order in every environment. *)
-Theorem C07_run_env_indep_py_partial :
-  forall (B : Type) (render : option audit -> cfg -> item -> list (list str) -> B) (c : cfg) (I : list tydecl) (e1 e2 : env),
-    c_embed_audit c = false -> c_lang c = LPy -> e_abs e1 = e_abs e2 ->
-    NoDup (out_paths B gen_src_facts gen_sites render e1 c I) ->
-    forall p, files B gen_src_facts gen_sites render e1 c I p = files B gen_src_facts gen_sites render e2 c I p.
+(* Python target: clock, hash order and cwd are irrelevant; the ABSOLUTE LOCATION IS NOT (known finding F-PY-PICKLEPATH, see
+   the refutation below): this theorem excludes one of the property's ambient dimensions for this target. *)
+Theorem C07_run_env_indep_py_same_location_only :
+  forall (B : Type) (render : env -> cfg -> item -> list (list str) -> B),
+    render_sees_only_body_view B gen_src_facts render ->
+    forall (c : cfg) (I : list tydecl) (e1 e2 : env),
+      c_embed_audit c = false -> c_lang c = LPy -> e_abs e1 = e_abs e2 ->
+      forall p, files B gen_src_facts gen_sites render e1 c I p = files B gen_src_facts gen_sites render e2 c I p.
 Proof.
-  intros B render c I e1 e2 Ha Hl Habs. apply run_env_indep_same_location; [exact Ha | exact C07_src_facts_ok | | exact Habs].
+  intros B render Hr c I e1 e2 Ha Hl Habs.
+  apply run_env_indep_same_location; [exact Hr | exact Ha | exact C07_src_facts_ok | | exact Habs].
   rewrite Hl. exact C07_py_clean_but_pickle.
 Qed.
-Print Assumptions C07_run_env_indep_py_partial.
+Print Assumptions C07_run_env_indep_py_same_location_only.
 
-(* the state of the output directory is irrelevant too: whatever it held before (an earlier run with other options, at another
-   time), every generated path ends up with what a run into an empty directory writes *)
+(* ... and once `T | pickle` no longer carries the location (the table without those rows), the full statement for Python
+   follows from the same lemma: nothing else in the Python templates is ungated *)
+Theorem C07_run_env_indep_py_when_pickle_fixed :
+  forall (B : Type) (render : env -> cfg -> item -> list (list str) -> B),
+    render_sees_only_body_view B gen_src_facts render ->
+    forall (c : cfg) (I : list tydecl) (e1 e2 : env),
+      c_embed_audit c = false -> c_lang c = LPy ->
+      forall p, files B gen_src_facts (drop_pickle gen_sites) render e1 c I p
+              = files B gen_src_facts (drop_pickle gen_sites) render e2 c I p.
+Proof.
+  intros B render Hr c I e1 e2 Ha Hl. apply run_env_indep_clean; [exact Hr | exact Ha | exact C07_src_facts_ok |].
+  rewrite Hl. vm_compute. reflexivity.
+Qed.
+Print Assumptions C07_run_env_indep_py_when_pickle_fixed.
+
+(* the same set of relative paths, unconditionally (auditing on or off, any table, any facts) *)
+Theorem C07_same_paths :
+  forall B sf tbl render e1 e2 c I,
+    Permutation (out_paths B sf tbl render e1 c I) (out_paths B sf tbl render e2 c I).
+Proof. exact out_paths_env_indep. Qed.
+Print Assumptions C07_same_paths.
+
+(* the previous state of the output directory is irrelevant: every generated path ends up with what a run into an empty
+   directory writes *)
 Theorem C07_output_dir_history_irrelevant :
   forall B tbl render fs0 e c I p,
     In p (out_paths B gen_src_facts tbl render e c I) ->
@@ -139,25 +177,18 @@ Theorem C07_output_dir_history_irrelevant :
 Proof. intros. apply output_dir_history_irrelevant; [vm_compute; reflexivity | assumption]. Qed.
 Print Assumptions C07_output_dir_history_irrelevant.
 
-(* the same set of relative paths, unconditionally (auditing on or off, any table) *)
-Theorem C07_same_paths :
-  forall B sf tbl render e1 e2 c I,
-    Permutation (out_paths B sf tbl render e1 c I) (out_paths B sf tbl render e2 c I).
-Proof. exact out_paths_env_indep. Qed.
-Print Assumptions C07_same_paths.
-
-(* the general statement behind both: for ANY table of use sites and source facts, two runs agree as soon as the
-   environments agree on what the table shows ungated *)
+(* the general statement behind all of them: for ANY facts and tables, two runs perform the same sequence of writes as soon as
+   the order facts hold (they include [tables_ok]) and the environments agree on what the site table shows ungated *)
 Theorem C07_run_env_indep_general :
-  forall B sf tbl render e1 e2 c I,
-    c_embed_audit c = false -> order_facts sf tbl c = true -> env_agree sf tbl (c_lang c) e1 e2 ->
-    NoDup (out_paths B sf tbl render e1 c I) ->
-    forall p, files B sf tbl render e1 c I p = files B sf tbl render e2 c I p.
-Proof. exact run_env_indep_gen. Qed.
+  forall B sf tbl render, render_sees_only_body_view B sf render ->
+    forall e1 e2 c I,
+      c_embed_audit c = false -> order_facts sf tbl c = true -> env_agree sf tbl (c_lang c) e1 e2 -> sf_nested_sorted sf = true ->
+      writes B sf tbl render e1 c I = writes B sf tbl render e2 c I.
+Proof. exact writes_env_eq. Qed.
 Print Assumptions C07_run_env_indep_general.
 
-(* Refutations on the faithful model.  F-PY-PICKLEPATH (live): the pickled pydsdl object inside every generated
-   Python class carries the absolute source path. *)
+(* ---- what is NOT reproducible, on the faithful model ---------------------------------------------------------------------- *)
+(* F-PY-PICKLEPATH (live): the pickled pydsdl object inside every generated Python class carries the absolute source path *)
 Theorem C07_py_pickle_abs_path_refuted :
   exists I e1 e2 p,
     files _ facts_all_true tbl_py_pickle render0 e1 (mk_cfg LPy false) I p
@@ -165,89 +196,47 @@ Theorem C07_py_pickle_abs_path_refuted :
 Proof. exact py_pickle_abs_path_refuted. Qed.
 Print Assumptions C07_py_pickle_abs_path_refuted.
 
-(* what the pinned tree did before the fixes (F-C-ABSPATH, F-PY-NSTIME), and what dropping a sort / iterating
-   nested namespaces unsorted in a template would do *)
-Theorem C07_c_abs_path_refuted :
+(* ... also with the regenerated tables, as long as the `| pickle` rows are there *)
+Theorem C07_py_location_matters_on_regenerated_tables :
+  forall H : existsb is_py_pickle gen_sites = true,
   exists I e1 e2 p,
-    files _ facts_all_true tbl_c_abspath render0 e1 (mk_cfg LC false) I p
-    <> files _ facts_all_true tbl_c_abspath render0 e2 (mk_cfg LC false) I p.
-Proof. exact c_abs_path_refuted. Qed.
-Print Assumptions C07_c_abs_path_refuted.
-
-Theorem C07_py_ns_timestamp_refuted :
-  exists I e1 e2 p,
-    files _ facts_all_true tbl_py_nstime render0 e1 (mk_cfg LPy false) I p
-    <> files _ facts_all_true tbl_py_nstime render0 e2 (mk_cfg LPy false) I p.
-Proof. exact py_ns_timestamp_refuted. Qed.
-Print Assumptions C07_py_ns_timestamp_refuted.
-
-Theorem C07_unsorted_includes_refuted :
-  exists I e1 e2 p,
-    files _ facts_inc_unsorted [] render0 e1 (mk_cfg LC false) I p
-    <> files _ facts_inc_unsorted [] render0 e2 (mk_cfg LC false) I p.
-Proof. exact unsorted_includes_refuted. Qed.
-Print Assumptions C07_unsorted_includes_refuted.
-
-Theorem C07_unsorted_namespace_iteration_refuted :
-  exists I e1 e2 p,
-    files _ facts_nested_unsorted tbl_nsiter render0 e1 (mk_cfg LPy false) I p
-    <> files _ facts_nested_unsorted tbl_nsiter render0 e2 (mk_cfg LPy false) I p.
-Proof. exact unsorted_namespace_iteration_refuted. Qed.
-Print Assumptions C07_unsorted_namespace_iteration_refuted.
-
-(* F-HTML-NATSORT-TIE (fixed in /repo): what the natural sort without tie-breaker did, and template_sets reporting
-   resolved template directories in an ungated banner *)
-Theorem C07_natsort_tie_refuted :
-  exists I e1 e2 p,
-    files _ facts_natsort_ties [] render0 e1 (mk_cfg LHtml false) I p
-    <> files _ facts_natsort_ties [] render0 e2 (mk_cfg LHtml false) I p.
-Proof. exact natsort_tie_refuted. Qed.
-Print Assumptions C07_natsort_tie_refuted.
-
-Theorem C07_template_sets_paths_refuted :
-  exists I e1 e2 p,
-    files _ facts_tmplsets_paths tbl_tmplsets render0 e1 (cfg_user_templates LCpp) I p
-    <> files _ facts_tmplsets_paths tbl_tmplsets render0 e2 (cfg_user_templates LCpp) I p.
-Proof. exact template_sets_paths_refuted. Qed.
-Print Assumptions C07_template_sets_paths_refuted.
-
-(* --configuration files loaded in sorted() order of their spelling (cwd-dependent), and a support file kept because it already
-   exists in a reused output directory *)
-Theorem C07_config_sorted_by_spelling_refuted :
-  exists I e1 e2 p,
-    files _ facts_config_sorted [] render0 e1 (cfg_two_configs LC) I p
-    <> files _ facts_config_sorted [] render0 e2 (cfg_two_configs LC) I p.
-Proof. exact config_sorted_by_spelling_refuted. Qed.
-Print Assumptions C07_config_sorted_by_spelling_refuted.
-
-Theorem C07_support_kept_refuted :
-  exists I e p fs0,
-    In p (out_paths _ facts_support_kept [] render0 e (cfg_two_configs LC) I) /\
-    files_into _ facts_support_kept [] render0 fs0 e (cfg_two_configs LC) I p
-    <> files _ facts_support_kept [] render0 e (cfg_two_configs LC) I p.
-Proof. exact support_kept_refuted. Qed.
-Print Assumptions C07_support_kept_refuted.
+    files _ gen_src_facts gen_sites render0 e1 (mk_cfg LPy false) I p
+    <> files _ gen_src_facts gen_sites render0 e2 (mk_cfg LPy false) I p.
+Proof.
+  exists ex_inputs, env_a, env_b, (p_A (mk_cfg LPy false)). revert H. vm_compute. intros H.
+  first [discriminate H | discriminate].
+Qed.
+Print Assumptions C07_py_location_matters_on_regenerated_tables.
 
 (* with --embed-auditing-info the files may differ: the premise is needed, and the model says so *)
 Theorem C07_audit_on_may_differ :
   exists I e1 e2 p,
-    files _ facts_all_true tbl_gated_only render0 e1 (mk_cfg LC true) I p
-    <> files _ facts_all_true tbl_gated_only render0 e2 (mk_cfg LC true) I p.
-Proof. exact audit_on_may_differ. Qed.
+    files _ gen_src_facts gen_sites render0 e1 (mk_cfg LC true) I p
+    <> files _ gen_src_facts gen_sites render0 e2 (mk_cfg LC true) I p.
+Proof. exists ex_inputs, env_a, env_b, (p_A (mk_cfg LC true)). vm_compute. discriminate. Qed.
 Print Assumptions C07_audit_on_may_differ.
 
-(* non-vacuity: the NoDup premise holds on an example with nested namespaces and cross-namespace dependencies for
-   every language, the two environments really generate in different orders, and the sorted include list is what
-   sorted() gives *)
-Example C07_premise_satisfiable :
-  forall l, NoDup (out_paths _ facts_all_true tbl_gated_only render0 env_a (mk_cfg l false) ex_inputs).
-Proof. exact ex_paths_nodup. Qed.
+(* ---- non-vacuity, on the REGENERATED facts and tables ------------------------------------------------------------------------ *)
+(* the named premise is satisfiable (a body that prints what it is given) *)
+Example C07_render_premise_satisfiable : render_sees_only_body_view _ gen_src_facts render0.
+Proof. exact (render0_pure gen_src_facts). Qed.
 
-Example C07_orders_really_differ :
-  gen_order facts_nested_unsorted env_a (mk_cfg LPy false) ex_inputs <> gen_order facts_nested_unsorted env_c (mk_cfg LPy false) ex_inputs.
-Proof. exact ex_orders_differ. Qed.
+(* an example with nested namespaces, a cross-namespace dependency, a dependency set of three, two environments that differ in
+   clock, cwd, location and every set order: the inputs of the theorem exist, the runs produce files, and the C include list is
+   the sorted one *)
+Example C07_example_runs_produce_files :
+  length (out_paths _ gen_src_facts gen_sites render0 env_a (mk_cfg LC false) ex_inputs) = 4%nat /\
+  length (out_paths _ gen_src_facts gen_sites render0 env_b (mk_cfg LHtml false) ex_inputs) = 6%nat /\
+  files _ gen_src_facts gen_sites render0 env_a (mk_cfg LC false) ex_inputs (p_A (mk_cfg LC false)) <> None.
+Proof. vm_compute. repeat split; discriminate. Qed.
 
-Example C07_premise_env_independent :
-  forall B sf tbl render e1 e2 c I,
-    NoDup (out_paths B sf tbl render e1 c I) -> NoDup (out_paths B sf tbl render e2 c I).
-Proof. exact nodup_paths_env_indep. Qed.
+Example C07_example_sorted_include_list :
+  include_list gen_src_facts env_b (mk_cfg LC false) d_A = include_list gen_src_facts env_a (mk_cfg LC false) d_A /\
+  length (include_list gen_src_facts env_b (mk_cfg LC false) d_A) = 5%nat.
+Proof. vm_compute. split; reflexivity. Qed.
+
+(* two items folding onto one path (same namespace, same name and version twice): still the same file in both runs *)
+Example C07_example_folding_paths :
+  forall p, files _ gen_src_facts gen_sites render0 env_a (mk_cfg LC false) (d_A :: ex_inputs) p
+          = files _ gen_src_facts gen_sites render0 env_c (mk_cfg LC false) (d_A :: ex_inputs) p.
+Proof. intros p. apply C07_run_env_indep; [exact (render0_pure gen_src_facts) | reflexivity | discriminate]. Qed.
